@@ -184,7 +184,7 @@ NOT_APPLICABLE = {}
 # decidable per-operation forms of the properties (coq/Model/Monitors.v), evaluated on the implementation's observed
 # snapshots: they turn a broken correspondence into a concrete failing history
 for _k, _m in {"C10": "mon_C10", "C07": "mon_C07", "C02": "mon_C02w", "C09": "mon_C09", "C12": "mon_C12", "C13": "mon_C13", "C03": "mon_C03", "C04": "mon_C04", "C06": "mon_C06w", "C08": "mon_C08r", "C11": "mon_C11c",
-               "C14": "mon_C14s", "C15": "mon_C15r", "C16": "mon_C16c", "C17": "mon_C17", "C20": "mon_C20"}.items():
+               "C14": "mon_C14s", "C15": "mon_C15r", "C16": "mon_C16c", "C17": "mon_C17", "C20": "mon_C20f"}.items():
     PROPS[_k]["monitor"] = _m
 
 # the public pure helpers called directly (harness/src/math.rs, coq/Model/CasesMath.v): thousands of numeric points per run
@@ -226,6 +226,7 @@ _EXTRA3 = {
  "C17": "OVER HISTORIES (SwitchesSafe.v, C17_switches_move_only_by_the_owner): while the pool manager's ownership is settled (owner o, no transfer pending), through ANY history of operations that o does not sign - swaps, routes, deposits, withdrawals, pool creations, attempts at privileged messages, calls between the contracts, replies, rejected operations, injected faults - every pool keeps its three feature switches exactly as they are: what the owner disabled stays disabled (so the blocking theorems keep applying), what is enabled stays enabled. Kernel-evaluated example: C17_switches_example.",
  "C11": "OVER HISTORIES (FarmsSafe.v, C11_others_cannot_touch_a_farm / ..._in_any_reachable_world): through ANY history of operations none of which is signed by o (a user address) - every call between the contracts, replies, rejected operations, injected faults - every farm owned by o in the final world was already his at the start, with the same identifier, LP denom, reward denom and budget, emission rate, start and end; only the claimed amount may have grown. Nobody else can create a farm in his name, expand or otherwise alter it (it may only disappear: closed by the contract owner or swept on expiry, refunding o). Kernel-evaluated example: C11_farms_example.",
  "C05": "THE 'HENCE' (Redeemable.v, C05_closed_position_withdrawal_transaction_succeeds): in every world reachable from genesis with no fault being injected, the withdrawal TRANSACTION of a closed position whose unlock instant has been reached, sent by its owner, SUCCEEDS - the handler accepts it and the farm manager's balance covers the transfer of the whole recorded amount (side conditions of a real bank: the owner is not the farm manager, his balance is non-negative and stays within u128). Kernel-evaluated example: C05_redeem_example. The analogous success statement for farm refunds is not proved (a failing refund is tolerated by design, C20).",
+ "C20": "Monitor mon_C20f on the implementation: a rejected operation leaves the whole snapshot unchanged, and a transaction ACCEPTED while an injected fault was pending (the only tolerated internal failure being a close-farm refund) is fully consistent - the pool manager's excess moves only as C01 allows, reserves stay backed, the farm manager's custody holds; a swap that commits although one of its transfers failed shows up as a concrete failing history.",
  "C09": "Monitor mon_C09 also checks the split on the implementation: after an accepted emergency withdrawal the penalty goes only to the configured fee collector and to owners of farms on that LP denom, in EQUAL shares per distinct owner, nobody loses anything, and what leaves the farm manager is exactly payout + shares and at most the recorded amount.",
  "C14": "Monitor mon_C14s also checks on the implementation that an accepted single-asset deposit creates or changes only positions owned by its sender, and that a requested lock produces such a position.",
 }
